@@ -167,6 +167,8 @@ type Body struct {
 	pos    int
 	ci     int
 	Closed bool
+	// OnOffset runs a callback the first time the read position reaches an offset.
+	OnOffset map[int]func()
 }
 
 func (b *Body) Read(p []byte) (int, error) {
@@ -191,6 +193,12 @@ func (b *Body) Read(p []byte) (int, error) {
 		n = b.FailAt - b.pos
 	}
 	copy(p, b.Data[b.pos:b.pos+n])
+	for off, f := range b.OnOffset {
+		if b.pos <= off && off < b.pos+n {
+			f()
+			delete(b.OnOffset, off)
+		}
+	}
 	b.pos += n
 	return n, nil
 }
